@@ -1208,3 +1208,125 @@ def _install_array_mut():
 
 
 _install_array_mut()
+
+
+# ---- round-5 additions: more of core by contract ------------------------------------------------------------------------------
+_ITYS = ("u8", "i8", "u16", "i16", "u32", "i32", "u64", "i64", "u128", "i128", "usize", "isize")
+
+
+def _kint(eng, st, v):
+    v = eng.resolve(st, v)
+    n = 0
+    while isinstance(v, RefV) and n < 4:
+        v = eng.resolve(st, load(Loc(v.cell, v.path)))
+        n += 1
+    return v.v if isinstance(v, K) and isinstance(v.v, int) and not isinstance(v.v, bool) else None
+
+
+def m_int_unary(f):
+    def m(eng, st, fr, t, name, rname, args):
+        x = _kint(eng, st, args[0])
+        if x is None:
+            return NotImplemented
+        return f(x, _int_ty(t))
+    return m
+
+
+def _wrap(x, ty):
+    rng = fdai._INT_RANGE.get(ty or "")
+    if rng is None:
+        return K(x)
+    lo, hi = rng
+    return K((x - lo) % (hi - lo + 1) + lo)
+
+
+def m_int_from(eng, st, fr, t, name, rname, args):
+    """`T::from(x)` / `x.into()` between integer types (lossless by construction): the same number"""
+    g = [str(x) for x in eng.concrete_gargs(st, t["callee"])]
+    x = _kint(eng, st, args[0])
+    if x is None or not g or not all(y in _ITYS for y in g[:2]):
+        return NotImplemented
+    return K(x)
+
+
+for _ty in _ITYS:
+    _p = "core::num::<impl %s>::" % _ty
+    INT_EXTRA = globals().setdefault("INT_EXTRA", {})
+    INT_EXTRA[_p + "unsigned_abs"] = m_int_unary(lambda x, ty: K(abs(x)))
+    INT_EXTRA[_p + "abs"] = m_int_unary(lambda x, ty: _wrap(abs(x), ty))
+    INT_EXTRA[_p + "wrapping_neg"] = m_int_unary(lambda x, ty: _wrap(-x, ty))
+    INT_EXTRA[_p + "wrapping_abs"] = m_int_unary(lambda x, ty: _wrap(abs(x), ty))
+    INT_EXTRA[_p + "is_negative"] = m_int_unary(lambda x, ty: K(x < 0))
+    INT_EXTRA[_p + "is_positive"] = m_int_unary(lambda x, ty: K(x > 0))
+    INT_EXTRA[_p + "signum"] = m_int_unary(lambda x, ty: K((x > 0) - (x < 0)))
+    INT_EXTRA[_p + "trailing_zeros"] = m_int_unary(lambda x, ty: K((x & -x).bit_length() - 1 if x else (fdai._INT_RANGE[ty][1].bit_length() + (1 if fdai._INT_RANGE[ty][0] < 0 else 0) if ty in fdai._INT_RANGE else 0)))
+    INT_EXTRA[_p + "count_ones"] = m_int_unary(lambda x, ty: K(bin(x & ((1 << 128) - 1)).count("1")))
+for _n in ("unsigned_abs", "abs", "wrapping_neg", "wrapping_abs", "is_negative", "is_positive", "signum", "trailing_zeros", "count_ones"):
+    INT_EXTRA["core::num::" + _n] = INT_EXTRA["core::num::<impl i32>::" + _n]
+INT_EXTRA["core::convert::From::from"] = _or(m_int_from, fdai.DEFAULT_MODELS.get("core::convert::From::from"))
+INT_EXTRA["core::convert::Into::into"] = _or(m_int_from, fdai.DEFAULT_MODELS.get("core::convert::Into::into"))
+INT_EXTRA["<T as core::convert::Into<U>>::into"] = _or(m_int_from, fdai.DEFAULT_MODELS.get("<T as core::convert::Into<U>>::into"))
+
+
+def m_try_for_each(eng, st, fr, t, name, rname, args):
+    """iter.try_for_each(f): f on every item in order until it returns Err / None (that value is the result)"""
+    from . import itermodels as IM
+    xs = IM.materialise(eng, st, args[0], sys.modules[__name__])
+    if xs is None:
+        return NotImplemented
+    out = []
+    work = [(st, 0)]
+    guard = 0
+    while work:
+        s, i = work.pop()
+        guard += 1
+        if guard > 4000:
+            raise fdai.TooManyPaths("try_for_each")
+        if s.outcome is not None:
+            out.append((s, TOP))
+            continue
+        if i >= len(xs):
+            g = [str(x) for x in eng.concrete_gargs(s, t["callee"])]
+            is_opt = any("option::Option" in x for x in g)
+            out.append((s, mk_option(fdai.UNIT) if is_opt else fdai.mk_ok(fdai.UNIT)))
+            continue
+        f2 = s.frames[-1]
+        fv = eng.operand(s, f2, t["args"][1])
+        for s2, v in eng.call_closure(s, f2, fv, [xs[i]], t):
+            if s2.outcome is not None:
+                out.append((s2, TOP))
+                continue
+            v = eng.resolve(s2, v)
+            if isinstance(v, EnumV) and v.name in ("Ok", "Some"):
+                work.append((s2, i + 1))
+            elif isinstance(v, EnumV) and v.name in ("Err", "None"):
+                out.append((s2, v))
+            else:
+                parts = fdai.split_result(eng, s2, s2.frames[-1], t, v) if not (isinstance(v, EnumV) and v.adt and "Option" in v.adt) else fdai.split_option(eng, s2, s2.frames[-1], t, v)
+                for s3, ev in parts:
+                    if ev.name in ("Ok", "Some"):
+                        work.append((s3, i + 1))
+                    else:
+                        out.append((s3, ev))
+    return out
+
+
+import sys
+ROUND5_MODELS = dict(INT_EXTRA)
+ROUND5_MODELS["core::iter::Iterator::try_for_each"] = m_try_for_each
+FOLD_MODELS.update({k: v for k, v in ROUND5_MODELS.items() if k not in FOLD_MODELS or k.startswith("core::convert::")})
+
+
+def m_int_try_from(eng, st, fr, t, name, rname, args):
+    """checked integer narrowing / widening: `T::try_from(x)`, `x.try_into()` between integer types"""
+    g = [str(x) for x in eng.concrete_gargs(st, t["callee"])]
+    x = _kint(eng, st, args[0])
+    if x is None or len(g) < 2 or not all(y in _ITYS for y in g[:2]):
+        return NotImplemented
+    dst = g[1] if name.endswith("try_into") else g[0]
+    lo, hi = fdai._INT_RANGE[dst]
+    return fdai.mk_ok(K(x)) if lo <= x <= hi else fdai.mk_err(SymV("TryFromIntError", "TryFromIntError"))
+
+
+for _k in ("core::convert::TryFrom::try_from", "core::convert::TryInto::try_into"):
+    FOLD_MODELS[_k] = _or(m_int_try_from, FOLD_MODELS.get(_k))
